@@ -20,10 +20,12 @@ def rule_r1(chk, db, v):
         return has_call(sl, "OffsetDateTime::now_utc") and (("PresignedUrlV4", "amz_date") in sl.fields or has_call(sl, "AmzDate::to_time"))
 
     def is_expires(sl):
-        return ("PresignedUrlV4", "expires") in sl.fields and not has_call(sl, "OffsetDateTime::now_utc")
+        # exactly the parsed X-Amz-Expires value: no arithmetic on it (e.g. `expires + skew` would widen the window)
+        arith = [callee_def(t) for _, t, _ in sl.calls if not flow.is_transparent(t)]
+        return ("PresignedUrlV4", "expires") in sl.fields and not has_call(sl, "OffsetDateTime::now_utc") and not arith
     found = False
     for c in cmps:
-        r = c.oriented(is_elapsed, is_expires)
+        r = c.oriented2(lambda sl: is_elapsed(sl) and ("PresignedUrlV4", "expires") not in sl.fields, "PresignedUrlV4", "expires")
         if r is None:
             continue
         rel, te, fe = r
@@ -35,7 +37,7 @@ def rule_r1(chk, db, v):
         fw = first_writes_from(body, rej_edges)
         chk.verdict(bool(fw) and all(is_err_write(w) for w in fw), "R1", "expired-is-error", body.loc(c.bi), "an expired URL does not end in an error return")
     if not found:
-        chk.fail("R1", "expiry", body.loc(), "no comparison between the time elapsed since X-Amz-Date and X-Amz-Expires guards acceptance")
+        chk.fail("R1", "expiry", body.loc(), "no comparison between the time elapsed since X-Amz-Date and (exactly) X-Amz-Expires guards acceptance")
     # skew: |elapsed| <= 900 s for future-dated requests
     def is_abs(sl):
         return has_call(sl, "Duration::abs") and has_call(sl, "OffsetDateTime::now_utc")
